@@ -165,6 +165,7 @@ class SystemMachine:
         self.subscribed = {}    # client -> set(script idx) from the client's point of view
         self.pending = {}       # (client, request id) -> info
         self.unjudged = []      # replies to queries sent inside windows (recorded only)
+        self.was_queryable = set()      # (height, header hex) ever part of the flushed index
         self.max_tip_seen = self.world.height
         self.min_fp = None
         self.info = {'classes': set(), 'quiesces': 0, 'nt': 0, 'checked_statuses': 0,
@@ -195,6 +196,12 @@ class SystemMachine:
                     if info['script'] in self.subscribed[client] or info.get('resub'):
                         self.subscribed[client].add(info['script'])
                         self.held[client][info['script']] = msg['result']
+                elif info['script'] not in self.held[client]:
+                    # refused (e.g. -102 "server busy - request timed out" when the reads behind
+                    # it took longer than the session's processing timeout): the client holds no
+                    # status and is not subscribed
+                    self.subscribed[client].discard(info['script'])
+                    self.info['classes'].add('subscribe_refused')
             elif info['kind'] == 'hsub':
                 if 'result' in msg:
                     self.held_header[client] = msg['result']
@@ -215,9 +222,23 @@ class SystemMachine:
                       'header_unknown')
             return
         if 'notification' in what:
-            if db.state.height < h:
-                self.fail(f'{what} carries height {h} but the database is at {db.state.height}',
+            # "never sent before that block is queryable": the block must be, or have been,
+            # part of the flushed index (a header read delivered late can go out after its
+            # block was undone again; the final-tip clause deals with that)
+            if db.state.height < h and (h, hdr.get('hex')) not in self.was_queryable:
+                self.fail(f'{what} carries height {h} but the database is at {db.state.height} '
+                          f'and that block has never been part of the flushed index',
                           'height_before_queryable')
+
+    def note_queryable(self, method, touched, height):
+        '''Called at every report into Notifications: the flushed index's chain is queryable.'''
+        db = self.server.db
+        if db.state is None:
+            return
+        tip = self.world.blocks.get(bytes(db.state.tip))
+        while tip is not None and (tip.height, tip.header.hex()) not in self.was_queryable:
+            self.was_queryable.add((tip.height, tip.header.hex()))
+            tip = tip.parent
 
     def fail(self, message, sig):
         if self.violation is None:
@@ -321,6 +342,7 @@ class SystemMachine:
         self.server = Server(self.db_dir, self.world, self.coin, reorg_limit=LIMIT,
                              chooser=self.chooser, max_latency=3, cache_mb=cache_mb)
         self.server.on_client_write = self.on_write
+        self.server.on_notify_call = self.note_queryable
         if cache_mb == 0:
             self.info['classes'].add('cache_pressure')
         try:
